@@ -100,14 +100,17 @@ def run(ctx):
         ctx.c11_replace = dict(kv.split("=", 1) for kv in os.environ["VERIF_C11_REPLACE"].split(","))
 
     def stages(ctx, mult, suffix, off):
-        one_stage(ctx, "c11" + suffix, n * mult, {}, 50 if ctx.tier == "quick" else 400, off)
-        if ctx.tier == "thorough" and not suffix:
+        if ctx.tier == "quick":
+            # cases 0..431: every assignment of the 11 outcomes of the quantifier to 1 service x <= 2 rounds (want 1..3,
+            # disk/proxy); then random cases
+            one_stage(ctx, "c11" + suffix, 432 + n * mult, {"VERIF_C11_EXH": "1"}, 110 if not suffix else 300, off)
+            return
+        one_stage(ctx, "c11" + suffix, 432 + n * mult, {"VERIF_C11_EXH": "1"}, 800, off)
+        if not suffix:
             # every assignment of the 11 outcomes of the quantifier to <= 2 services x <= 2 rounds, and of 7
-            # class representatives to 3 services x <= 2 rounds; want 1..3, disk and proxy
-            one_stage(ctx, "c11exh2", 10 ** 9, {"VERIF_C11_MODE": "exh2", "VERIF_C11_ALL": "1"}, 800, off)
-            one_stage(ctx, "c11exh3", 10 ** 9, {"VERIF_C11_MODE": "exh3", "VERIF_C11_ALL": "1"}, 1500, off, timeout=2400)
-        elif not suffix:
-            one_stage(ctx, "c11exh2", 10 ** 9, {"VERIF_C11_MODE": "exh2", "VERIF_C11_ALL": "1", "VERIF_C11_EXH_SVC": "1"}, 50, off)
+            # class representatives to <= 3 services x <= 2 rounds; want 1..3, disk and proxy
+            one_stage(ctx, "c11exh2", 0, {"VERIF_C11_EXH": "2", "VERIF_C11_EXH_ONLY": "1"}, 1500, off)
+            one_stage(ctx, "c11exh3", 0, {"VERIF_C11_EXH": "3", "VERIF_C11_EXH_ONLY": "1"}, 3000, off, timeout=2400)
 
     return standard(ctx, "C11", ["model/C11_run.vo"], stages,
                     rule="random service lists (0-5 writable, 0-2 read-only, disk/proxy/mixed, duplicate URLs), want 1-3, retries 0-3, "
